@@ -26,8 +26,6 @@ mod c13;
 mod c17;
 #[cfg(kani)]
 mod c18;
-#[cfg(kani)]
-mod exp;
 #[cfg(all(kani, feature = "zt"))]
 mod c09;
 #[cfg(all(kani, feature = "net"))]
